@@ -21,6 +21,9 @@ def run(chk, args):
         {"family": "sam", "ns": "5" if q else "5,6", "count": 40 if q else 200, "length": 12 if q else 18, "reps": "0,1,3"},
         {"family": "sam", "ns": "3,4", "count": 6 if q else 30, "length": 8, "reps": "1,10,100,1000"},
         {"family": "float_sam", "ns": "3,4,5", "count": 15 if q else 100, "length": 10, "reps": "0,1,2,10"},
+        # player counts beyond 6: 2^n passes 64 (seeds C04-d, C08-d: a 64-bit key over coalitions silently wraps there)
+        {"family": "sam", "ns": "7,8", "count": 3 if q else 16, "length": 10, "reps": "0,1,3"},
+        {"family": "float_sam", "ns": "7", "count": 3 if q else 16, "length": 10, "reps": "0,2"},
     ])
     from common_bounds import replay_bounds_behaviours
     replay_bounds_behaviours(chk, "SAM3", {"N": 3, "cls": "SAM", "sing": "m3to0", "slacks": "m3to0", "computers": {"sam"}, "reps": {0, 1, 2, 3}}, 50 if q else 400)
